@@ -31,7 +31,7 @@ func checkC06(c *Ctx) {
 	}
 	// store level, production-size: long recorded histories in which stores with large unit-entry buffers,
 	// pages and collapsed windows are encoded and decoded into non-empty stores; TLC validates decode = merge
-	c.runStoreTraces(c.pick(40, 300), traceGenOpts{Events: c.pick(500, 2000), Kinds: []string{"paged", "paged", "dense", "sparse", "low", "high"}, Limits: []int{2, 8, 128},
+	c.runStoreTraces(c.pick(40, 150), traceGenOpts{Events: c.pick(500, 2000), Kinds: []string{"paged", "paged", "dense", "sparse", "low", "high"}, Limits: []int{2, 8, 128},
 		Ops: []string{"Add", "Add", "Add", "Add", "Add", "AddWithCount", "AddRepeat", "EncDec", "EncDec", "EncDec", "Merge", "Clear", "CopyTo"}}, "decode into non-empty stores")
 }
 
